@@ -64,7 +64,9 @@ func stSpec(cs stCase) *rstep.ASpec {
 
 var stMsgs = []interface{}{M{"a": 1.0}, M{"fail": 1.0}, M{"goto": 1.0}, M{"stuck": 1.0}, M{"zzz": 1.0}}
 
-func stTrace(spec *core.Spec, maxLen int) string {
+func stTrace(spec *core.Spec, maxLen int) string { return stTraceOver(spec, maxLen, stMsgs, "n0") }
+
+func stTraceOver(spec *core.Spec, maxLen int, stMsgs []interface{}, start string) string {
 	var out strings.Builder
 	var rec func(st *core.State, depth int, prefix string)
 	rec = func(st *core.State, depth int, prefix string) {
@@ -88,7 +90,7 @@ func stTrace(spec *core.Spec, maxLen int) string {
 			rec(ns, depth+1, key+".")
 		}
 	}
-	rec(&core.State{NodeName: "n0", Bs: match.NewBindings()}, 0, "")
+	rec(&core.State{NodeName: start, Bs: match.NewBindings()}, 0, "")
 	return out.String()
 }
 
@@ -203,13 +205,39 @@ func C13spectool(c *vh.Ctx) {
 		}
 	}
 	if c.Replay != "" {
+		var mc stModCase
+		if c.LoadReplay(&mc) == nil && mc.Mod != "" {
+			stModOne(c, mc, maxLen)
+			return
+		}
 		var cs stCase
 		if c.LoadReplay(&cs) == nil && cs.Cmd != "" {
 			one(cs)
 		}
 		return
 	}
-	c.Rule("(spectool) a five-node specification with emitting, failing and branch-less action nodes and a branch to a node that may not exist, under every combination of the settings {noErrorNode, errorNode in {none, a name of its own, an existing node}, actionErrorBranches, actionErrorNode, inline patterns / JSON-text patterns}, written as YAML and as JSON and converted by the repository's own commands (yamltojson, yamltojson -p, jsontoyaml, yamltojson then jsontoyaml, analyze = decode, parse patterns, write YAML): the complete behaviour tree of the output over all message sequences up to the bound must equal that of the Go-structure rendering.")
+	// the commands that edit a specification (read YAML, parse patterns, apply the edit, write YAML)
+	{
+		var idx uint64
+		pats := []string{`{"ctl":"cancel"}`, `{"device":17}`, `{"v":1.5}`, `{"l":[1,"a",true,null]}`, `{"n":{"deep":[{"k":2}]}}`, `17`, `"?anything"`, `{"big":12345678901234567890}`, `{"e":1e3}`}
+		for _, pt := range pats {
+			for _, parse := range []bool{true, false} {
+				idx++
+				if c.Mine(idx) && !c.Expired() {
+					stModOne(c, stModCase{Mod: "addMessageBranches", Pattern: pt, Parse: parse}, maxLen)
+				}
+			}
+		}
+		lists := []string{`[{"e":{"order":"beer"},"r":{"deliver":"beer"}}]`, `[{"e":{"order":1},"r":{"deliver":1}},{"e":{"order":2.5},"r":{"deliver":2.5}}]`,
+			`[{"e":{"order":[1,2]},"r":{"deliver":[2]}},{"e":"text","r":17}]`, `[{"e":null,"r":{"ok":true}},{"e":{"n":{"k":3}},"r":{"n":{"k":3}}}]`}
+		for _, l := range lists {
+			idx++
+			if c.Mine(idx) && !c.Expired() {
+				stModOne(c, stModCase{Mod: "addOrderedOutMessages", Pattern: l, Parse: true}, maxLen)
+			}
+		}
+	}
+	c.Rule("(spectool) a five-node specification with emitting, failing and branch-less action nodes and a branch to a node that may not exist, under every combination of the settings {noErrorNode, errorNode in {none, a name of its own, an existing node}, actionErrorBranches, actionErrorNode, inline patterns / JSON-text patterns}, written as YAML and as JSON and converted by the repository's own commands (yamltojson, yamltojson -p, jsontoyaml, yamltojson then jsontoyaml, analyze = decode, parse patterns, write YAML): the complete behaviour tree of the output over all message sequences up to the bound must equal that of the Go-structure rendering. The editing commands (addMessageBranches with and without -P over patterns that hold strings, integers, fractions, big and exponent-form numbers, arrays, nested maps, a bare number, a bare variable; addOrderedOutMessages over lists of messages with numbers, arrays, nested maps): the specification they write, loaded, must behave like the same edit made on the Go structures (the pattern instances are among the messages).")
 	var idx uint64
 	for _, ne := range []bool{false, true} {
 		for _, en := range []string{"", "failed", "n1"} {
@@ -248,4 +276,79 @@ func firstDiff(got, want string) string {
 		}
 	}
 	return "extra steps"
+}
+
+// stModCase: one of spectool's editing commands.
+type stModCase struct {
+	Mod     string `json:"mod"`     // addMessageBranches | addOrderedOutMessages
+	Pattern string `json:"pattern"` // JSON text given on the command line (a pattern / the list of messages)
+	Parse   bool   `json:"parse"`   // -P
+}
+
+// stModOne: the command's output, loaded, must behave like the Go-structure rendering of the input edited in
+// process by the same (exported) editing function with the JSON text decoded the plain way.
+func stModOne(c *vh.Ctx, mc stModCase, maxLen int) {
+	c.Eval()
+	base := stSpec(stCase{}).Raw()
+	var args string
+	var msgs []interface{}
+	msgs = append(msgs, stMsgs...)
+	addMsgsOf := func(x interface{}) {
+		if x != nil {
+			msgs = append(msgs, x)
+		}
+	}
+	start := "n0"
+	switch mc.Mod {
+	case "addMessageBranches":
+		var pattern interface{} = mc.Pattern
+		args = "addMessageBranches -t n1 -p " + mc.Pattern
+		if mc.Parse {
+			args = "addMessageBranches -P -t n1 -p " + mc.Pattern
+			if err := json.Unmarshal([]byte(mc.Pattern), &pattern); err != nil {
+				c.NotExhaustive("bad pattern text in the harness: " + err.Error())
+				return
+			}
+			addMsgsOf(pattern)
+		}
+		if err := AddMessageBranches(base, pattern, "n1"); err != nil {
+			c.NotExhaustive("AddMessageBranches: " + err.Error())
+			return
+		}
+	case "addOrderedOutMessages":
+		args = "addOrderedOutMessages -e n0 -m " + mc.Pattern
+		m := &AddOrderedOutMessagesMod{Prefix: "oi_", StartNodeName: "start", EndNodeName: "n0", TimeoutNodeName: "timedout"}
+		if err := json.Unmarshal([]byte(mc.Pattern), &m.OutAndIns); err != nil {
+			c.NotExhaustive("bad list text in the harness: " + err.Error())
+			return
+		}
+		for _, oi := range m.OutAndIns {
+			addMsgsOf(oi.In)
+		}
+		if err := m.F(base); err != nil {
+			c.NotExhaustive("AddOrderedOutMessagesMod.F: " + err.Error())
+			return
+		}
+		start = "oi_start"
+	}
+	if err := base.Compile(context.Background(), nil, true); err != nil {
+		c.Count("mod_reference_does_not_compile", 1)
+		return
+	}
+	want := stTraceOver(base, maxLen, msgs, start)
+	c.Nontrivial()
+	ydoc, _ := stDoc(stCase{}, "yaml")
+	out, err := stTool(args, []byte(rstep.YAML(ydoc)))
+	if err != nil {
+		c.Violation("C13/spectool/tool-fails/"+mc.Mod, fmt.Sprintf("spectool %s fails on a specification that loads and compiles: %v", args, err), mc)
+		return
+	}
+	sp, err := stLoad(out, "yaml")
+	if err != nil {
+		c.Violation("C13/spectool/output-does-not-load/"+mc.Mod, fmt.Sprintf("the output of spectool %s does not load or compile (%v): %s", args, err, clip(string(out))), mc)
+		return
+	}
+	if got := stTraceOver(sp, maxLen, msgs, start); got != want {
+		c.Violation("C13/spectool/output-behaves-differently/"+mc.Mod, fmt.Sprintf("the specification written by spectool %s behaves differently from the same edit made on the Go structures: %s", args, firstDiff(got, want)), mc)
+	}
 }
